@@ -130,7 +130,7 @@ func c10One(r *Run, snap *slog.VerifRegistry, ops []Op, kind string) {
 			}
 		case "ONew":
 			name := ""
-			if o.Name != nil {
+			if o.Name != nil && *o.Name != 0 {
 				name = fmt.Sprintf("n%d", *o.Name)
 			}
 			if ex, ok := children[o.P][name]; ok && name != "" {
